@@ -1,5 +1,6 @@
 """C19 — the panic catcher returns results or panic text and never leaks state."""
 from lib import *
+import sem
 
 LEVEL = "other"
 EXPLANATION = ("Path and who-may-write rules over engine/src/panic.rs: in catch_panic the nesting level is "
@@ -32,73 +33,72 @@ def _cell_writes(clo):
             "core::cell::Cell" in norm(c.get("callee", ""))]
 
 
+def _call_lit(pc, pred):
+    """polarity of the certain bool-call literal of the path condition whose call node satisfies pred (None if absent)"""
+    for a, pol in sem.literals(pc)[0]:
+        if a.kind == "call" and a.node is not None and pred(strip(a.node)):
+            return pol
+    return None
+
+
 def rule_pair(E, R):
     rule = "R19-pair"
     h = E.hir(CATCH)
     if not h:
         return R.cannot(rule, CATCH, "anchor not found")
-    t = tail(h["body"])
-    if t.get("k") != "If":
-        return R.violation(rule, CATCH, "catch_panic branches on start_catching()", "body is not an if/else", h["span"])
-    cond = strip(t["cond"])
-    R.check(cond.get("k") == "Call" and norm(cond.get("callee", "")) == START, rule, CATCH,
+    S = sem.Sem(E, h, inline=False)
+    sites = S.sites()
+    is_start = lambda n: n.get("k") == "Call" and norm(n.get("callee", "")) == START
+    started = lambda x: _call_lit(x.pc, is_start)
+    starts = [x for x in sites if is_start(x.node)]
+    R.check(len(starts) == 1 and not starts[0].pc, rule, CATCH, "catch_panic branches on start_catching()",
+            "start_catching() must be called exactly once, unconditionally", h["span"])
+    cu = [x for x in sites if x.node.get("k") == "Call" and norm(x.node.get("callee", "")) == "std::panic::catch_unwind"]
+    stops = [x for x in sites if x.node.get("k") == "Call" and norm(x.node.get("callee", "")) == STOP]
+    R.check(len(cu) == 1 and started(cu[0]) is True, rule, CATCH,
             "the catching branch is taken iff start_catching() returned true", where=h["span"])
-    then = t["then"]
-    stmts = then.get("stmts", []) if then.get("k") == "Block" else []
-    idx_unwind = idx_stop = None
-    for i, st in enumerate(stmts):
-        if st.get("k") == "SLet" and "init" in st and any(norm(c.get("callee", "")) == "std::panic::catch_unwind" for c in exprs(st["init"], "Call", into_closures=False)):
-            idx_unwind = i
-        if st.get("k") in ("SSemi", "SExpr"):
-            e = strip(st["e"])
-            if e.get("k") == "Call" and norm(e.get("callee", "")) == STOP:
-                idx_stop = i if idx_stop is None else -1
-    all_stops = [c for c in exprs(then, "Call") if norm(c.get("callee", "")) == STOP]
-    R.check(idx_unwind is not None and idx_stop is not None and idx_stop > idx_unwind >= 0 and len(all_stops) == 1, rule, CATCH,
-            "stop_catching() runs exactly once, unconditionally, right after catch_unwind returns",
-            "catch_unwind at statement %s, stop at %s, %d stop calls in the branch" % (idx_unwind, idx_stop, len(all_stops)), h["span"])
-    # nothing can leave the branch between the two (no `?`, return, break)
-    between = stmts[(idx_unwind or 0) + 1:(idx_stop or 0)] if idx_unwind is not None and idx_stop else []
-    R.check(not any(list(exprs(s, ("Ret", "Break", "Match"))) for s in between), rule, CATCH,
-            "no exit between catch_unwind and stop_catching", where=h["span"])
-    # result inspected after stop: the match on `result` is the tail
-    tt = tail(then)
-    res_local = None
-    if idx_unwind is not None:
-        res_local = stmts[idx_unwind]["pat"].get("name")
-    ok = tt.get("k") == "Match" and local_name(tt["scrut"]) == res_local
-    R.check(ok, rule, CATCH, "the outcome of catch_unwind is inspected after the level was restored", where=h["span"])
-    if ok:
-        arms = {pat_variant(a["pat"]): a for a in tt["arms"]}
-        a_ok = arms.get("core::result::Result::Ok")
-        a_err = arms.get("core::result::Result::Err")
-        good_ok = a_ok is not None and norm(tail(a_ok["body"]).get("callee", "")) == "core::result::Result::Ok" and \
-            local_name(tail(a_ok["body"])["args"][0]) in pat_bindings(a_ok["pat"])
+    ok_pair = len(cu) == 1 and len(stops) == 1 and stops[0].pc == cu[0].pc and not stops[0].in_loop and not stops[0].in_closure and \
+        sites.index(cu[0]) < sites.index(stops[0])
+    R.check(ok_pair, rule, CATCH, "stop_catching() runs exactly once, unconditionally, right after catch_unwind returns",
+            "%d catch_unwind, %d stop calls; they must be reached under the same conditions, stop after catch_unwind" % (len(cu), len(stops)), h["span"])
+    if ok_pair:
+        between = sites[sites.index(cu[0]) + 1:sites.index(stops[0])]
+        exits = [x for x in between if x.node.get("k") in ("Ret", "Break") or sem.is_try(x.node)]
+        R.check(not exits, rule, CATCH, "no exit between catch_unwind and stop_catching", where=h["span"])
+        # the outcome is looked at only after the level was restored
+        pRes = lambda v: sem.passes_through(S, v.node, v.frame, cu[0].node)
+        leaves = S.result_leaves()
+        oks = [x for x in leaves if norm(x.node.get("callee", "")) == "core::result::Result::Ok" and started(x) is True]
+        errs = [x for x in leaves if norm(x.node.get("callee", "")) == "core::result::Result::Err" and started(x) is True]
+        after = all(sites.index(x) > sites.index(stops[0]) for x in oks + errs if x in sites)
+        R.check(bool(oks) and bool(errs) and after, rule, CATCH, "the outcome of catch_unwind is inspected after the level was restored", where=h["span"])
+        good_ok = bool(oks) and all(sem.passes_through(S, x.node["args"][0], x.frame, cu[0].node) and
+                                    sem.admits(x.pc, pRes, None) in ({"Result::Ok"},) for x in oks)
         R.check(good_ok, rule, CATCH, "f's value is returned unchanged", where=h["span"])
-        good_err = a_err is not None and norm(tail(a_err["body"]).get("callee", "")) == "core::result::Result::Err" and \
-            any(norm(c.get("callee", "")) == P + "panic_catcher_get_backtrace" for c in exprs(a_err["body"], "Call"))
+        good_err = bool(errs) and all(any(norm(c.get("callee", "")) == P + "panic_catcher_get_backtrace" for c in exprs(x.node, "Call")) for x in errs)
         R.check(good_err, rule, CATCH, "a caught panic yields the text recorded by the hook", where=h["span"])
     # f is what catch_unwind runs
-    cu = [c for c in exprs(then, "Call") if norm(c.get("callee", "")) == "std::panic::catch_unwind"]
-    R.check(len(cu) == 1 and is_param(cu[0]["args"][0], h, 0), rule, CATCH, "catch_unwind runs f itself", where=h["span"])
+    R.check(len(cu) == 1 and is_param(cu[0].node["args"][0], h, 0), rule, CATCH, "catch_unwind runs f itself", where=h["span"])
     # disabled: transparent
-    el = t.get("else", {})
-    te = tail(el)
-    calls_f = te.get("k") == "Call" and norm(te.get("callee", "")) == "core::result::Result::Ok" and \
-        strip(te["args"][0]).get("k") == "Call" and is_param(strip(te["args"][0])["f"], h, 0)
-    touches = [c for c in exprs(el, "Call") if norm(c.get("callee", "")) in (START, STOP, "std::panic::catch_unwind")]
+    off = [x for x in S.result_leaves() if started(x) is False]
+    calls_f = len(off) == 1 and norm(off[0].node.get("callee", "")) == "core::result::Result::Ok" and \
+        strip(off[0].node["args"][0]).get("k") == "Call" and is_param(strip(off[0].node["args"][0])["f"], h, 0)
+    touches = [x for x in sites if started(x) is False and x.node.get("k") == "Call" and
+               norm(x.node.get("callee", "")) in (START, STOP, "std::panic::catch_unwind")]
     R.check(calls_f and not touches, rule, CATCH, "when catching is disabled f runs transparently (no catch_unwind, no level change)", where=h["span"])
     # start increments iff it returns true
     hs = E.hir(START)
     if not hs:
         return R.cannot(rule, START, "anchor not found")
-    ts = tail(hs["body"])
-    ok = False
-    if ts.get("k") == "If":
-        en = _tls_with(ts["cond"], "PANIC_CATCHER_ENABLED")
-        then_inc = _tls_with(ts["then"], "PANIC_CATCHER_LEVEL")
-        else_inc = _tls_with(ts.get("else", {}), "PANIC_CATCHER_LEVEL")
-        ok = bool(en) and len(then_inc) == 1 and not else_inc and is_lit(tail(ts["then"]), True) and is_lit(tail(ts["else"]), False)
+    Ss = sem.Sem(E, hs, inline=False)
+    is_en = lambda n: bool(_tls_with(n, "PANIC_CATCHER_ENABLED"))
+    enabled = lambda x: _call_lit(x.pc, is_en)
+    incs = [x for x in Ss.sites() if x.node.get("k") == "MethodCall" and x.node in _tls_with(x.node, "PANIC_CATCHER_LEVEL")]
+    leaves = Ss.result_leaves()
+    trues = [x for x in leaves if is_lit(x.node, True)]
+    falses = [x for x in leaves if is_lit(x.node, False)]
+    ok = len(incs) == 1 and enabled(incs[0]) is True and not incs[0].in_loop and len(trues) == 1 and len(falses) == 1 and \
+        len(leaves) == 2 and enabled(trues[0]) is True and enabled(falses[0]) is False
     R.check(ok, rule, START, "the level is incremented exactly when start_catching() returns true", where=hs["span"])
 
 
